@@ -759,12 +759,17 @@ class Rename(_Unary):
     symmetry of the pack).  Declared one-way, a 3-cycle and its square give overlapping
     directed cycles of one-way rules: A -> A' -> A'' -> A and A -> A'' -> A' -> A."""
 
-    def __init__(self, perm=(1, 0), mask=None, lazy=False, two_way=False, ignore_parent=False):
-        super().__init__(mask=mask, lazy=lazy, two_way=two_way, ignore_parent=ignore_parent)
+    def __init__(self, perm=(1, 0), mask=None, lazy=False, two_way=False, ignore_parent=False, empty_first=False):
+        super().__init__(mask=mask, lazy=lazy, two_way=two_way, ignore_parent=ignore_parent, empty_first=empty_first)
         self.perm = tuple(perm)
 
     def _args_repr(self):
-        return f"perm={self.perm}" + ("" if self.two_way else ",one_way") + ("" if self.ignore_parent else "+keep_parent")
+        return (
+            f"perm={self.perm}"
+            + ("" if self.two_way else ",one_way")
+            + ("" if self.ignore_parent else "+keep_parent")
+            + ("+empty_first" if self.empty_first else "")
+        )
 
     def _m(self, l):
         return self.perm[l] if l < len(self.perm) else l
@@ -782,20 +787,23 @@ class Rename(_Unary):
         return {k: k for k in c.extra_parameters}
 
     def forward_map(self, comb_class, obj, children=None):
-        return (Wd(self._m(l) for l in obj),)
+        if children is None:
+            children = self.decomposition_function(comb_class)
+        img = Wd(self._m(l) for l in obj)
+        return (None, img) if len(children) == 2 else (img,)
 
     def backward_map(self, comb_class, objs, children=None):
         inv = {self._m(l): l for l in range(max(len(self.perm), 4))}
-        yield Wd(inv[l] for l in objs[0])
+        yield Wd(inv[l] for l in objs[-1])
 
     def to_jsonable(self):
         d = self._base_json()
-        d.update(perm=list(self.perm), two_way=self.two_way)
+        d.update(perm=list(self.perm), two_way=self.two_way, empty_first=self.empty_first)
         return d
 
     @classmethod
     def from_dict(cls, d):
-        return cls(d["perm"], d.get("mask"), d.get("lazy", False), d.get("two_way", False), d.get("ignore_parent", False))
+        return cls(d["perm"], d.get("mask"), d.get("lazy", False), d.get("two_way", False), d.get("ignore_parent", False), d.get("empty_first", False))
 
 
 class LetterPermutation(MaskMixin, SymmetryStrategy):
@@ -1041,7 +1049,7 @@ _STRATS = {
     "DropDeadStatistic": lambda s: DropDeadStatistic(_mask(s), s.get("lazy", False), two_way=s.get("two_way", True), ignore_parent=s.get("ignore_parent", True), reversible=s.get("reversible", True), empty_first=s.get("empty_first", False)),
     "MergeDuplicateStatistics": lambda s: MergeDuplicateStatistics(_mask(s), s.get("lazy", False), two_way=s.get("two_way", True), ignore_parent=s.get("ignore_parent", True), reversible=s.get("reversible", True), empty_first=s.get("empty_first", False)),
     "TrackLetter": lambda s: TrackLetter(s.get("letter", 0), _mask(s), s.get("lazy", False), s.get("two_way", True), s.get("ignore_parent", True)),
-    "Rename": lambda s: Rename(tuple(s["perm"]), _mask(s), s.get("lazy", False), s.get("two_way", False), s.get("ignore_parent", False)),
+    "Rename": lambda s: Rename(tuple(s["perm"]), _mask(s), s.get("lazy", False), s.get("two_way", False), s.get("ignore_parent", False), s.get("empty_first", False)),
     "LetterPermutation": lambda s: LetterPermutation(tuple(s["perm"]), _mask(s), s.get("lazy", False)),
     "WordAtom": lambda s: WordAtom(),
     "AtomStrategy": lambda s: AtomStrategy(),
@@ -1206,8 +1214,9 @@ def selfcheck_rule(strategy, c, nmax=5):
             for ch, pm in zip(children, params):
                 for x in truth_objects(ch, n):
                     if isinstance(strategy, (LetterPermutation, Rename)):
-                        w = tuple(next(strategy.backward_map(c, (x,), children)))
-                        if strategy.forward_map(c, Wd(w), children)[0] != x:
+                        objs = tuple(x if other is ch else None for other in children)
+                        w = tuple(next(strategy.backward_map(c, objs, children)))
+                        if strategy.forward_map(c, Wd(w), children) != objs:
                             raise WorldBug(f"{strategy}: forward/backward not inverse on {x}")
                     else:
                         w = tuple(x)
